@@ -28,39 +28,52 @@ def Answers : Reply → Prop
   | .notJson => False
   | .panic _ => False
   | .deadlock => False
+  | .evaluating => False
 
 /-- A fresh debugger (`NewECALDebugger`, with or without a global scope) satisfies the invariant. -/
 theorem inv_init (gs : Bool) (globals : List Str) : Inv (init gs globals) := by
   refine ⟨⟨?_, ?_⟩, rfl⟩ <;> intro p hp <;> simp [init] at hp
 
 theorem handle_ok (env : Env) (s : DbgState) (line : Str) (h : Inv s) :
-    ∃ o s', handleInput repaired env line s = .ok o s' ∧ Inv s' ∧ o.1 ≠ .unencodable := by
+    (∃ o s', handleInput repaired env line s = .ok o s' ∧ Inv s' ∧ o.1 ≠ .unencodable) ∨
+    (∃ s', handleInput repaired env line s = .evaluating s' ∧ Inv s') := by
   have hw := handleInput_safe env line h.1 h.2
   unfold wp at hw
   cases hr : handleInput repaired env line s with
-  | ok o s' => rw [hr] at hw; exact ⟨o, s', rfl, hw.1, hw.2⟩
+  | ok o s' => rw [hr] at hw; exact .inl ⟨o, s', rfl, hw.1, hw.2⟩
+  | evaluating s' => rw [hr] at hw; exact .inr ⟨s', rfl, hw⟩
   | panic p s' => rw [hr] at hw; exact hw.elim
   | deadlock s' => rw [hr] at hw; exact hw.elim
 
 /-- **Never panics.** In every state satisfying the invariant, for every input line (any
-    byte string) and every oracle behaviour, the reply is a result or an error: no index,
-    slice or nil-dereference primitive of the handler fails and the lock is not taken twice. -/
+    byte string) and every oracle behaviour, the command returns a result or an error — no
+    index, slice or nil-dereference primitive of the handler fails, the lock is not taken twice
+    (in particular not by an `inject` expression that calls back into the debugger) — or it is
+    `inject` still evaluating its expression (`evaluating` is produced only by `evalExpr` on an
+    expression the oracle says does not return). What json.Marshal does with the result is
+    modelled only for error data (`Shape.unencodable`); otherwise it is tested, not proved. -/
 theorem handle_never_panics (env : Env) (s : DbgState) (line : Str) (h : Inv s) :
-    Answers (handle env s line).2 := by
-  obtain ⟨o, s', hr, _, ho⟩ := handle_ok env s line h
-  simp only [handle, handleG, hr, Out.reply]
-  by_cases h2 : o.2 = true
-  · simp [h2, Answers]
-  · simp [h2, ho, Answers]
+    Answers (handle env s line).2 ∨ (handle env s line).2 = .evaluating := by
+  rcases handle_ok env s line h with ⟨o, s', hr, _, ho⟩ | ⟨s', hr, _⟩
+  · left
+    simp only [handle, handleG, hr, Out.reply]
+    by_cases h2 : o.2 = true
+    · simp [h2, Answers]
+    · simp [h2, ho, Answers]
+  · right
+    simp only [handle, handleG, hr]
 
 /-- Every command preserves the invariant. -/
 theorem handle_preserves_inv (env : Env) (s : DbgState) (line : Str) (h : Inv s) :
     Inv (handle env s line).1 := by
-  obtain ⟨o, s', hr, hi, _⟩ := handle_ok env s line h
-  simpa only [handle, handleG, hr] using hi
+  rcases handle_ok env s line h with ⟨o, s', hr, hi, _⟩ | ⟨s', hr, hi⟩
+  · simpa only [handle, handleG, hr] using hi
+  · simpa only [handle, handleG, hr] using hi
 
 /-- **Lock released.** After every command — on every path, error returns included — the
-    debugger's lock is free again. -/
+    debugger's lock is free again; and while `inject` evaluates its expression (reply
+    `evaluating`: the state is the one every other command sees meanwhile) no debugger lock is
+    held either: **no command holds a debugger lock across an evaluation**. -/
 theorem lock_released (env : Env) (s : DbgState) (line : Str) (h : Inv s) :
     (handle env s line).1.lock = 0 := (handle_preserves_inv env s line h).2
 
@@ -75,7 +88,7 @@ def suspendedAtTop : DbgState :=
 /-- Even the code before a44f74f releases the lock when it panics (the unlock is deferred):
     for both guard settings the lock count after a command equals the one before. -/
 theorem lock_released_even_unrepaired :
-    (handleG { lockstateNil := false, stepOutLen := false, errDataConv := false } ⟨fun _ => true, fun _ _ => true⟩
+    (handleG { lockstateNil := false, stepOutLen := false, errDataConv := false, injectOutside := false } ⟨fun _ => .ok, fun _ _ => true⟩
       suspendedAtTop
       [99, 111, 110, 116, 32, 49, 32, 115, 116, 101, 112, 111, 117, 116]).1.lock = 0 := by decide
 
@@ -152,15 +165,9 @@ theorem still_answers (env env' : Env) (s : DbgState) (line : Str) (h : Inv s) :
   generalize (handle env s line).1 = t at hi
   have hf : fields [115, 116, 97, 116, 117, 115] = [[115, 116, 97, 116, 117, 115]] := by decide
   have hc : lookupCmd [115, 116, 97, 116, 117, 115] = some .status := by decide
-  have hw := statusOf_safe hi.1 hi.2
-  unfold wp at hw
   have hrun : handleInput repaired env' [115, 116, 97, 116, 117, 115] t = statusOf repaired t := by
     simp [handleInput, hf, hc, idx, Cmd.run, bind, pure]
-  simp only [handle, handleG, hrun]
-  cases hr : statusOf repaired t with
-  | ok o t' => rw [hr] at hw; simp [hw.2, Out.reply]
-  | panic p t' => rw [hr] at hw; exact hw.elim
-  | deadlock t' => rw [hr] at hw; exact hw.elim
+  simp [handle, handleG, hrun, statusOf_eq hi.1 hi.2, Out.reply]
 
 /-- the states a debugger can be in: created, then any interleaving of command lines and
     evaluator events -/
@@ -178,7 +185,7 @@ theorem reachable_inv {s : DbgState} (h : Reachable s) : Inv s := by
 /-- **The property**: in every reachable debugger state, every input line gets a result or
     an error, the lock is free afterwards and a following `status` is answered. -/
 theorem command_interface_total {s : DbgState} (hr : Reachable s) (env env' : Env) (line : Str) :
-    Answers (handle env s line).2 ∧ (handle env s line).1.lock = 0 ∧
+    (Answers (handle env s line).2 ∨ (handle env s line).2 = .evaluating) ∧ (handle env s line).1.lock = 0 ∧
     (handle env' (handle env s line).1 [115, 116, 97, 116, 117, 115]).2 = .ok .status :=
   ⟨handle_never_panics env s line (reachable_inv hr), lock_released env s line (reachable_inv hr),
    still_answers env env' s line (reachable_inv hr)⟩
@@ -186,7 +193,7 @@ theorem command_interface_total {s : DbgState} (hr : Reachable s) (env env' : En
 example : Reachable suspendedAtTop :=
   .event (.advance 1 0 (.suspended false true true [])) (.event .setRefs (.event (.start 1) (.init true []) rfl) rfl) rfl
 
-def anyEnv : Env := ⟨fun _ => true, fun _ _ => true⟩
+def anyEnv : Env := ⟨fun _ => .ok, fun _ _ => true⟩
 
 /-- non-vacuity: the repaired code answers the two critical inputs -/
 example : (handle anyEnv (init true []) [108, 111, 99, 107, 115, 116, 97, 116, 101]).2 = .ok .lockstate := by decide
@@ -196,16 +203,39 @@ example : (handle anyEnv suspendedAtTop
 /-- **The `lockstate` guard is necessary**: without the nil checks added by a44f74f,
     `lockstate` before any evaluation dereferences the unset mutex log. -/
 theorem unrepaired_lockstate_panics :
-    (handleG { lockstateNil := false, stepOutLen := true, errDataConv := true } anyEnv (init true [])
+    (handleG { lockstateNil := false, stepOutLen := true, errDataConv := true, injectOutside := true } anyEnv (init true [])
       [108, 111, 99, 107, 115, 116, 97, 116, 101]).2 = .panic "LockState: ed.mutexLog.StringSlice()" := by
   decide
 
 /-- **The step-out guard is necessary**: without `len(stack) > 0`, `cont 1 stepout` for a
     thread suspended at call depth 0 slices `stack[:-1]`. -/
 theorem unrepaired_stepout_panics :
-    (handleG { lockstateNil := true, stepOutLen := false, errDataConv := true } anyEnv suspendedAtTop
+    (handleG { lockstateNil := true, stepOutLen := false, errDataConv := true, injectOutside := true } anyEnv suspendedAtTop
       [99, 111, 110, 116, 32, 49, 32, 115, 116, 101, 112, 111, 117, 116]).2
       = .panic "Continue: stack[:len(stack)-1]" := by
+  decide
+
+/-- the `inject` expression calls a function of the debugged program / does not return -/
+def visitingEnv : Env := ⟨fun _ => .visits true, fun _ _ => true⟩
+def divergingEnv : Env := ⟨fun _ => .diverges, fun _ _ => true⟩
+
+/-- `inject 1 x f1(1)` -/
+def injectLine : Str := [105, 110, 106, 101, 99, 116, 32, 49, 32, 120, 32, 102, 49, 40, 49, 41]
+
+/-- non-vacuity: the repaired code survives an expression that visits the debugger, and is
+    `evaluating` with the lock free for one that does not return -/
+example : (handle visitingEnv suspendedAtTop injectLine).2 = .ok .null := by decide
+example : (handle divergingEnv suspendedAtTop injectLine).2 = .evaluating ∧
+    (handle divergingEnv suspendedAtTop injectLine).1.lock = 0 := by decide
+
+/-- **Evaluating outside the lock is necessary**: with the expression evaluated under
+    `ed.lock.Lock()` (before fixes/C16-inject-eval-outside-lock), an expression that calls a
+    function declared by the debugged program re-enters the debugger (VisitState → RLock) and
+    the command deadlocks with itself; one that does not return keeps the lock for ever, so no
+    other command is answered any more. -/
+theorem unrepaired_inject_deadlocks :
+    (handleG { repaired with injectOutside := false } visitingEnv suspendedAtTop injectLine).2 = .deadlock ∧
+    (handleG { repaired with injectOutside := false } divergingEnv suspendedAtTop injectLine).1.lock = 1 := by
   decide
 
 /-- a thread suspended by break-on-error whose error carries an ECAL map (or a non-finite
@@ -225,9 +255,9 @@ example : (handle anyEnv suspendedOnMapError [100, 101, 115, 99, 114, 105, 98, 1
     passing `Data` through unconverted, `status` and `describe 1` return an object json.Marshal
     rejects while a thread is suspended on an error carrying an ECAL map. -/
 theorem unrepaired_errdata_not_json :
-    (handleG { lockstateNil := true, stepOutLen := true, errDataConv := false } anyEnv suspendedOnMapError
+    (handleG { lockstateNil := true, stepOutLen := true, errDataConv := false, injectOutside := true } anyEnv suspendedOnMapError
       [115, 116, 97, 116, 117, 115]).2 = .notJson ∧
-    (handleG { lockstateNil := true, stepOutLen := true, errDataConv := false } anyEnv suspendedOnMapError
+    (handleG { lockstateNil := true, stepOutLen := true, errDataConv := false, injectOutside := true } anyEnv suspendedOnMapError
       [100, 101, 115, 99, 114, 105, 98, 101, 32, 49]).2 = .notJson := by
   decide
 
